@@ -13,7 +13,7 @@ COMMON_ASSUME = [
 
 
 def cfgs(names, profile="rel", args=None, features=""):
-    return [{"cfg": n, "profile": profile, "args": list(args or []), "features": features if "fmt" in n else ""} for n in names]
+    return [{"cfg": n, "profile": profile, "args": list(args or []), "features": features if ("fmt" in n or features != "catalogue") else ""} for n in names]
 
 
 CHECKS = {
@@ -239,6 +239,19 @@ CHECKS = {
                 "buffer or panic; never a fault or a modified canary; non-trivial = outputs within 8 bytes of the bound",
         "bounds": {"quick": "OPT_w level 1 for STANDARD (~6900 option sets), level 0 (~430) for other formats; ~130 values", "thorough": "OPT_w level 2 (~60000 option sets) for STANDARD; ~1600 values; debug-assertion profile"},
         "assumptions": ["the guard pages detect accesses of >= 1 byte outside the slice; canaries detect writes inside the mapping but outside the slice"],
+    },
+    "C17": {
+        "bin": "c17",
+        "quick": cfgs(["dflt", "rdxfmt"], features="facade"),
+        "thorough": cfgs(["dflt", "cmp", "rdx", "rdxfmt", "cmprdxfmt"], features="facade"),
+        "rule": "float values (binade borders, extremes, specials, decimal landmarks, both signs) x formats {STANDARD, radix 2/16/36/3, required signs + "
+                "exponent notation, no exponent notation} x write options (OPT_w level 0, 50-letter special strings, and every ordered pair of valid "
+                "punctuation bytes - printable ASCII, not a digit of the radix, not a sign - as decimal point and exponent): lexical::to_string* bytes == "
+                "lexical_core::write* bytes, no byte >= 0x80, a panic on one side iff on the other; every string of <= L tokens over {+,-,0,1,.,exponent,x,"
+                "nan,inf}: lexical::parse* == lexical_core::parse* (value bits, count, error); the 12 integer types on boundary and sparse values; "
+                "non-trivial = values written",
+        "bounds": {"quick": "every 7th punctuation pair, token depth 4", "thorough": "all ~8900 punctuation pairs per format, token depth 5"},
+        "assumptions": [],
     },
 }
 
